@@ -37,6 +37,11 @@ def run(facts, tier):
     obs += o
     rules.append({"rule": "reader dead-reads", "instances": len([x for x in o if x["status"] != "info"]), "min": 250,
                   "text": "no return of a reader lies between the read of an image value and the place where that value is used (restored state is complete on every path)"})
+    import reader_twins_roles
+    o = reader_twins_roles.obligations(facts)
+    obs += o
+    rules.append({"rule": "reader twin roles", "instances": len([x for x in o if x["status"] != "info"]), "min": 8,
+                  "text": "the stream reader and the byte reader of one class hand booleans of the same origin (same flag bit, same comparison of an image value with a constant) to the same constructor position"})
     sarmed = set(json.load(open(os.path.join(VERIF, "spec", "size_armed.json")))["armed"])
     o = size_branches.obligations(facts, sarmed)
     obs += o
